@@ -26,7 +26,7 @@ for ONE column (one batch member, one init vector).  Core Lean only.
             inner_products = q_mat[:k+1].mul(r_vec).sum(-2)                         -- `innerProducts`
             could_reorthogonalize = False
             for _ in range(10):                                                     -- `extraPasses`
-                if not torch.sum(inner_products > tol): could_reorthogonalize = True; break
+                if not torch.sum(inner_products.abs() > tol): could_reorthogonalize = True; break
                 (correction, subtract, renormalise, recompute inner_products)       -- `reorthPass`
             q_mat[k+1].copy_(r_vec)
             if torch.sum(beta_curr.abs() > 1e-6) == 0 or not could_reorthogonalize: break
@@ -117,8 +117,14 @@ def correction [Add α] [Mul α] [Zero α] (m : Nat) (q : Fam (Vec α n)) (r : V
   let c := innerProducts m q r
   Vector.ofFn fun i => sumFin m fun j => (q.get j.1)[i] * c[j]
 
-/-- `torch.sum(inner_products > tol)` is non-zero -/
+/-- `torch.sum(inner_products.abs() > tol)` is non-zero — the test on the MAGNITUDE of the inner products (code since
+commit 7af42c2) -/
 def anyGt (ops : NumOps α) {m : Nat} (ip : Vector α m) (tol : α) : Bool :=
+  (List.finRange m).any fun j => ops.gt (ops.abs ip[j]) tol
+
+/-- PREVIOUS code (before 7af42c2): `torch.sum(inner_products > tol)`, the signed test — a negative inner product, however
+large, never asked for another re-orthogonalisation pass.  Kept only as the record of that defect. -/
+def anyGtSigned (ops : NumOps α) {m : Nat} (ip : Vector α m) (tol : α) : Bool :=
   (List.finRange m).any fun j => ops.gt ip[j] tol
 
 /-- one re-orthogonalisation pass: subtract the correction, renormalise -/
@@ -127,7 +133,7 @@ def reorthPass [Add α] [Sub α] [Mul α] [Div α] [Zero α] (ops : NumOps α) (
   let r1 := vsub r (correction m q r)
   vdiv r1 (norm ops r1)
 
-/-- `for _ in range(fuel): if not sum(inner_products > tol): could = True; break; <pass>`
+/-- `for _ in range(fuel): if not sum(inner_products.abs() > tol): could = True; break; <pass>`
 returns (r_vec, could_reorthogonalize, number of passes run) -/
 def extraPasses [Add α] [Sub α] [Mul α] [Div α] [Zero α] (ops : NumOps α) (tol : α) (m : Nat)
     (q : Fam (Vec α n)) : (fuel : Nat) → Vec α n → Vec α n × Bool × Nat
